@@ -172,7 +172,7 @@ def plumbing(rep: Report, prog: Program) -> None:
     # the flag selects between the two Jacobian constructions, in both places, with the same polarity
     for f in (fwd, bwd):
         sel = []
-        for n in own_nodes(f.node, into_lambdas=True):
+        for n in ast.walk(f.node):       # lambdas and local helper functions included
             if isinstance(n, ast.IfExp) or isinstance(n, ast.If):
                 t = norm(n.test)
                 if 'j_precompute' in t:
